@@ -3,10 +3,10 @@
 #  1. cherry-pick the fix: commits of branch ws-<name> of /repo onto /repo's main (stops on conflict)
 #  2. merge branch ws-<name> of /verif into main (new files; stops on conflict)
 set -e
-n="$1"; base="${2:-main}"; [ -n "$n" ] || { echo usage: merge_ws.sh name; exit 2; }
+n="$1"; base="${2:-main}"; git -C /repo rev-parse -q --verify merged-$n >/dev/null && base=merged-$n; [ -n "$n" ] || { echo usage: merge_ws.sh name; exit 2; }
 echo "== repo commits on ws-$n:"
-git -C /repo log --oneline --reverse --cherry-pick --right-only --no-merges $base...ws-$n
-for c in $(git -C /repo log --format=%h --reverse --cherry-pick --right-only --no-merges $base...ws-$n); do
+git -C /repo log --oneline --reverse --first-parent --no-merges $base..ws-$n
+for c in $(git -C /repo log --format=%h --reverse --first-parent --no-merges $base..ws-$n); do
   msg=$(git -C /repo log -1 --format=%s $c)
   case "$msg" in
     fix:*) echo "cherry-pick $c $msg"; git -C /repo cherry-pick $c
@@ -16,6 +16,7 @@ for c in $(git -C /repo log --format=%h --reverse --cherry-pick --right-only --n
   esac
 done
 git -C /verif checkout -- evidence/ 2>/dev/null || true
+git -C /repo tag -f merged-$n ws-$n >/dev/null
 echo "== verif merge ws-$n"
 if ! git -C /verif merge --no-edit ws-$n; then
   # evidence files of other properties rewritten by the worker: keep ours
